@@ -41,13 +41,15 @@ TEXTS = {
     "C09": dict(text="Coq theorems: registered calls are exactly the pending unsuperseded ones; a value is installed only by a never-superseded call; a superseded load changes nothing; explicit writes/invalidations always take effect. "
                      "Engine: writes and invalidations placed before the loader starts, while it runs, and after it returned, for Get and Refresh; the cache's value is compared with the model after every step.",
                design_ref="DESIGN.md section 5, C09", note=LOAD_NOTE, technique=LOAD_TECH),
-    "C15": dict(text="Coq theorem: the SWAR search (markZeroBytes over meta xor broadcast(h2)) marks every matching byte of every 64-bit word, so a bound key's slot is always visited. Executable Coq model of the "
-                     "table (meta words, chains, grow/shrink/clear, per-table seeds) compared call by call with the implementation: results, update-function invocations and arguments, size, table length, per-bucket "
-                     "layout and exact iteration order. Concurrent lookups/updates/iteration during resizes are checked by implementation oracles (stable keys always found, counters exact, iteration yields each stable key once). "
-                     "The all-sequences refinement to a finite map and the concurrent theorems of the design are not proved in this revision.",
-               design_ref="DESIGN.md section 5, C15",
-               note="Trusted: Coq kernel, extraction, OCaml replayer, Go harness, verif exports of internal/hashmap. maphash is an input. The concurrent part is testing with property oracles, not proof.",
-               technique="Coq proof of the SWAR kernel + executable table model with call-by-call correspondence; concurrent oracles on free-running executions"),
+    "C15": dict(text="Coq theorems (theories/HashMapBytes.v, HashMapRefine.v) for EVERY hash function (one per table generation), every initial table length and every sequence of Get / Compute (keep, set, delete; present and absent keys) / Clear: "
+                     "C15_seq_refines_map - the table model answers exactly like a finite map, the update function sees the map's binding and runs once, the grow-and-retry loop ends within its fuel; C15_iteration_exact - in every reachable state "
+                     "iteration yields every binding exactly once and the size counter equals their number; C15_resize_keeps_everything - grow/shrink re-hash every entry into the new table and keep exactly the bindings, clear leaves none. "
+                     "Underneath: SWAR zero-byte search without false negatives, setByte/getByte/broadcast byte algebra, marks visited in slot order, a key stored at most once in the chain its hash selects. "
+                     "The model is replayed call by call against the implementation (results, invocation counts, size, table length, per-bucket chain layout, iteration order) through growth to hundreds of buckets and back. "
+                     "Concurrent behaviour (lookups/updates/iteration during a resize) is checked by implementation oracles only.",
+               design_ref="DESIGN.md section 0.2 and section 5, C15",
+               note="Trusted: Coq kernel, extraction, OCaml replayer, Go harness, verif exports of internal/hashmap. maphash is an input (the theorems hold for every hash function). The concurrent part is testing with property oracles, not proof.",
+               technique="Coq refinement proof (table model = finite map, all hash functions and operation sequences, across resizes) + executable table model with call-by-call correspondence; concurrent oracles on free-running executions"),
     "C16": dict(text="Coq theorem C16_seq_fifo (theories/MpscFifo.v): for every pair of capacities NewMPSC accepts and every sequence of complete pushes and pops the chunked queue model answers exactly like a FIFO list of "
                      "capacity roundup32(maximum) - through every growth step (new buffer, JUMP marker, link) and every move of the consumer into the next buffer: every accepted element returned exactly once in order, "
                      "nothing else returned, an offer refused exactly when the queue holds its maximum (C16_refused_exactly_when_full, C16_size_bounded). The model (push split into reserve/publish) is compared with the "
